@@ -6,16 +6,60 @@ ASSUMPTIONS = ['inductive step from an arbitrary pre-state: share values > 0, sh
                'rounding allowance per operation: (asset share value + liability share value)/2^48 + 4 ulps of I80F48 (2^-48 native units)']
 
 
+def t_cache_frame(world):
+    """frame lemma used by C01.b: the two cache refreshers write nothing but Bank.cache and Bank.last_update"""
+    import z3
+    from specs.C12 import leaves, pretty
+    obs = []
+    for fname, rx in (('update_bank_cache', r'BankImpl for [^>]*Bank>::update_bank_cache$|bank\.rs[^>]*>::update_bank_cache$'), ('update_cache_price', r'BankImpl for [^>]*Bank>::update_cache_price$|bank\.rs[^>]*>::update_cache_price$')):
+        eng = world.engine(opaque=[r'calc_interest_rate$', r'create_interest_rate_calculator$'], merge=False, max_paths=5000)
+        f = world.fn(rx)
+        args = [eng.ex.fresh(ty, n) for n, (_, ty) in zip(['bank', 'x'], f.params)]
+        res = eng.run_fn(f, args)
+        ob = Ob(f'C01.c.{fname}', f'{fname} writes only Bank.cache and Bank.last_update (frame lemma: lets the handler obligations keep the fee buckets and totals across the cache refresh)',
+                [f.name], 'every path; interest-rate calculator opaque (&self)'); ob.paths = len(res)
+        for r in returned(res):
+            if ob.witness(eng, r, []) is False: continue
+            bank = eng.deref_val(args[0])
+            lv = []; leaves(eng, bank, '', lv)
+            for idxpath, val in lv:
+                nm = pretty('Bank', idxpath)
+                if nm.startswith('cache') or nm == 'last_update': continue
+                init = z3.Int('bank*' + idxpath) if not isinstance(val, BoolV) else z3.Bool('bank*' + idxpath)
+                cur = ev(val)
+                if cur.eq(init): ob.queries += 1; ob.unsat += 1; continue
+                ob.prove(eng, r, [], cur == init, f'{nm} is not written', role='writes:' + nm)
+            if bank.name != 'bank*': ob.fail('bank object replaced wholesale')
+        ob.need_witness(); obs.append(ob)
+    return obs
+
+
+def sum_cache_refresh(eng, st, callee, args):
+    """update_bank_cache / update_cache_price summarised by their frame lemma (C01.c): only Bank.cache and last_update change"""
+    import z3
+    ref = args[0]
+    bi = STRUCTS['Bank']
+    for fld, ty in (('cache', 'BankCache'), ('last_update', 'i64')):
+        k = bi.index(fld)
+        eng.set_path(ref.cell, ref.path + (('f', k, ty),), eng.ex.fresh(ty, eng.ex.fresh_name('refreshed_' + fld)))
+    d = z3.Int(eng.ex.fresh_name('cache_refresh_disc')); eng.ex.assumptions.append(z3.And(d >= 0, d <= 1))
+    st.events.append(('call', callee, args, EnumV('Result', d, {0: {0: StructV('()', 'unit', {}, lazy=False)}, 1: {0: Opaque('E', 'err')}}), []))
+    return EnumV('Result', d, {0: {0: StructV('()', 'unit', {}, lazy=False)}, 1: {0: Opaque('E', 'err')}})
+
+
+CACHE_SUMMARIES = [(r'::update_bank_cache$', sum_cache_refresh), (r'::update_cache_price$', sum_cache_refresh)]
+
+
 def t_borrow_fee(world):
     """C01.b: the borrow handler books amount+origination fee as debt, pays out `amount`, and credits the fee buckets with exactly the difference"""
     import z3
     from specs.handlers import run_handler, KERNELS
     from specs.flows import SUMMARIES, evs
     from specs.C12 import find_accounts
-    kernels = [k for k in KERNELS if k != r'BankAccountWrapper']
-    eng, f, args, res = run_handler(world, r'borrow::lending_account_borrow$', kernels=kernels, summaries=SUMMARIES)
+    kernels = [k for k in KERNELS if k not in (r'BankAccountWrapper', r'update_bank_cache$', r'update_cache_price$')]
+    eng, f, args, res = run_handler(world, r'borrow::lending_account_borrow$', kernels=kernels, summaries=list(SUMMARIES) + CACHE_SUMMARIES)
     ob = Ob('C01.b.borrow', 'borrow handler: booked debt = payout + origination fee; fee buckets (group + program) grow by exactly the origination fee, each by a non-negative share; tokens leaving the vault = the pre-fee amount',
-            [f.name], 'handler mode (wrapper op summarised, token CPI opaque); all amounts, fee rates in [0,1], buckets below 2^100 (no saturation)'); ob.paths = len(res)
+            [f.name], 'handler mode (wrapper op summarised, token CPI opaque); all amounts, fee rates in [0,1], buckets below 2^64 tokens (no saturation)'); ob.paths = len(res)
     n_ok = 0
     for r, okc in ok_paths(res):
         E = evs(r)
@@ -36,11 +80,15 @@ def t_borrow_fee(world):
         fee = booked - out * W
         d_grp = g1('collected_group_fees_outstanding') - g0('collected_group_fees_outstanding')
         d_prg = g1('collected_program_fees_outstanding') - g0('collected_program_fees_outstanding')
-        rate_names = [n for n in free_consts(z3.And(r['pc'] + [d_grp == 0, d_prg == 0])) if grp and n.startswith(grp[0])]
-        dom = [g0('collected_group_fees_outstanding') >= 0, g0('collected_group_fees_outstanding') < (1 << 100) * W,
-               g0('collected_program_fees_outstanding') >= 0, g0('collected_program_fees_outstanding') < (1 << 100) * W] + \
-              [z3.And(z3.Int(n) >= 0, z3.Int(n) <= W) for n in rate_names] + \
-              [fsym(sv.name, 'Bank', 'config.interest_rate_config.protocol_origination_fee') >= 0, fsym(sv.name, 'Bank', 'config.interest_rate_config.protocol_origination_fee') <= W]
+        # magnitudes: every bank snapshot's fee rate in [0,1], buckets in [0, 2^64 tokens); the group's program fee rate in [0,1]
+        suf = lambda fld: str(fsym('X', 'Bank', fld))[1:]
+        allc = free_consts(z3.And(r['pc'] + [d_grp == 0, d_prg == 0, fee == 0]))
+        dom = []
+        for n in allc:
+            if n.endswith(suf('config.interest_rate_config.protocol_origination_fee')) or (grp and n.startswith(grp[0]) and 'fee' not in n and False): dom.append(z3.And(z3.Int(n) >= 0, z3.Int(n) <= W))
+            if n.endswith(suf('collected_group_fees_outstanding')) or n.endswith(suf('collected_program_fees_outstanding')): dom.append(z3.And(z3.Int(n) >= 0, z3.Int(n) < (1 << 64) * W))
+        pfr = fsym(grp[0], 'MarginfiGroup', 'fee_state_cache.program_fee_rate') if grp else None
+        if pfr is not None: dom.append(z3.And(pfr >= 0, pfr <= W))
         ob.prove(eng, r, [okc] + dom, z3.And(fee >= 0, out >= 0), 'booked debt >= tokens paid out')
         ob.prove(eng, r, [okc] + dom, d_grp + d_prg == fee, 'group + program fee buckets grow by exactly booked debt - payout (the origination fee)', role='fee-split')
         ob.prove(eng, r, [okc] + dom, z3.And(d_grp >= 0, d_prg >= 0), 'neither bucket shrinks', role='fee-split-sign')
@@ -52,4 +100,4 @@ def t_borrow_fee(world):
 
 def tasks(tier):
     n = 40 if tier == 'quick' else 1000
-    return [('borrow_fee', t_borrow_fee)] + [(f'{op}', wrapper_task(op, 'C01', n)) for op in OPS if goals_for(op, OpPre, ('C01',))]
+    return [('borrow_fee', t_borrow_fee), ('cache_frame', t_cache_frame)] + [(f'{op}', wrapper_task(op, 'C01', n)) for op in OPS if goals_for(op, OpPre, ('C01',))]
